@@ -149,7 +149,7 @@ structure Trace (wb : Workbook) (doc : Node) (f : Fields) (lists : List (Str × 
   hdoc : doc = assemble f none (instNodes (defaultsOfL [f.name] ditems) [f.name] (ntKids o.inst))
     ((Choices.staticInsts [] lists).map Choices.instNode ++
       bindNodesL (elsOf f.name (dWithMeta f.name rows ditems)) [(f.name, .group)] (dWithMeta f.name rows ditems))
-    (bodyNodesL [f.name] ditems)
+    (bodyNodesL (elsOf f.name (dWithMeta f.name rows ditems)) [f.name] ditems)
   hvalid : validDoc [] doc = true
 
 theorem convertDoc_trace (wb : Workbook) (doc : Node) (h : convertDoc wb = .ok doc) :
@@ -203,14 +203,16 @@ theorem convertDoc_trace (wb : Workbook) (doc : Node) (h : convertDoc wb = .ok d
                                 · simp at h
                                 · rename_i hc
                                   split at h
-                                  · rename_i hv
-                                    simp only [Except.ok.injEq] at h
-                                    refine ⟨f, _, rows, drows, o, ditems, ⟨hf, ⟨key, hkey, hrows⟩, hdrows, ho, hdi, ?_, ?_, ?_, h.symm, ?_⟩⟩
-                                    · simpa [iidQ] using hm
-                                    · simpa using hb
-                                    · simpa using hc
-                                    · rw [← h]; exact hv
                                   · simp at h
+                                  · split at h
+                                    · rename_i hv
+                                      simp only [Except.ok.injEq] at h
+                                      refine ⟨f, _, rows, drows, o, ditems, ⟨hf, ⟨key, hkey, hrows⟩, hdrows, ho, hdi, ?_, ?_, ?_, h.symm, ?_⟩⟩
+                                      · simpa [iidQ] using hm
+                                      · simpa using hb
+                                      · simpa using hc
+                                      · rw [← h]; exact hv
+                                    · simp at h
 
 #print axioms convertDoc_trace
 
@@ -283,30 +285,61 @@ theorem isDom_bindNodesL (els : List Refs.Chain) : ∀ (pc : Refs.Chain) (ds : L
     rw [isDomKids_append, isDom_bindNodes els pc k, isDom_bindNodesL els pc ks]; rfl
 end
 
-theorem isDom_labelNode (r : Cells) : isDom (labelNode r) = true := by
-  unfold labelNode
-  refine isDom_pyNode _ _ _ ?_
-  cases get r "label" with
-  | none => exact isDomKids_nil
-  | some s => exact isDomKids_single (isDom_text _ _)
+mutual
+theorem isDom_of_domOk : ∀ (n : Node), domOk n = true → isDom n = true
+  | .text _ _, _ => by simp [isDom]
+  | .elem t a ks, h => by
+    simp only [domOk, Bool.and_eq_true] at h
+    simp only [isDom, h.1, isDomKids_of_domOkL ks h.2, Bool.and_self]
+theorem isDomKids_of_domOkL : ∀ (ks : List Node), domOkL ks = true → isDomKids ks = true
+  | [], _ => by simp [isDomKids]
+  | k :: ks, h => by
+    simp only [domOkL, Bool.and_eq_true] at h
+    simp only [isDomKids, isDom_of_domOk k h.1, isDomKids_of_domOkL ks h.2, Bool.and_self]
+end
 
-theorem isDom_hintNode (r : Cells) : isDom (hintNode r) = true := by
-  unfold hintNode
-  refine isDom_pyNode _ _ _ ?_
-  cases get r "hint" with
-  | none => exact isDomKids_nil
-  | some s => exact isDomKids_single (isDom_text _ _)
+theorem isDom_emptyNode (tag : Str) : isDom (emptyNode tag) = true := isDom_pyNode _ _ _ isDomKids_nil
 
-theorem isDom_labelAndHint (r : Cells) : isDomKids (labelAndHint r) = true := by
+theorem textOutcome_ok {els : List Refs.Chain} {path : List Str} {tag s : Str} {n : Node}
+    (h : textOutcome els path tag s = .ok n) : domOk n = true ∧ outputOnly n = true := by
+  unfold textOutcome at h
+  split at h
+  · simp at h
+  · split at h
+    · split at h
+      · rename_i hc
+        simp only [Chan.Outcome.ok.injEq] at h; subst h
+        simpa [Bool.and_eq_true] using hc
+      · simp at h
+    · rename_i hne
+      exact absurd h (by intro h'; exact hne _ h')
+
+theorem isDom_textNode (els : List Refs.Chain) (path : List Str) (tag : Str) (cell : Option Str) :
+    isDom (textNode els path tag cell) = true := by
+  unfold textNode
+  split
+  · exact isDom_emptyNode _
+  · split
+    · rename_i n hn; exact isDom_of_domOk n (textOutcome_ok hn).1
+    · exact isDom_emptyNode _
+
+theorem isDom_labelNode (els : List Refs.Chain) (path : List Str) (r : Cells) : isDom (labelNode els path r) = true :=
+  isDom_textNode ..
+
+theorem isDom_hintNode (els : List Refs.Chain) (path : List Str) (r : Cells) : isDom (hintNode els path r) = true :=
+  isDom_textNode ..
+
+theorem isDom_labelAndHint (els : List Refs.Chain) (path : List Str) (r : Cells) :
+    isDomKids (labelAndHint els path r) = true := by
   unfold labelAndHint
   rw [isDomKids_append]
-  have h1 : isDomKids (if (has r "label" || has r "hint") = true then [labelNode r] else []) = true := by
+  have h1 : isDomKids (if (has r "label" || has r "hint") = true then [labelNode els path r] else []) = true := by
     split
-    · exact isDomKids_single (isDom_labelNode r)
+    · exact isDomKids_single (isDom_labelNode ..)
     · exact isDomKids_nil
-  have h2 : isDomKids (if has r "hint" = true then [hintNode r] else []) = true := by
+  have h2 : isDomKids (if has r "hint" = true then [hintNode els path r] else []) = true := by
     split
-    · exact isDomKids_single (isDom_hintNode r)
+    · exact isDomKids_single (isDom_hintNode ..)
     · exact isDomKids_nil
   rw [h1, h2]; rfl
 
@@ -320,7 +353,7 @@ theorem isDom_itemsetNodes (r : Cells) : isDomKids (itemsetNodes r) = true := by
         (isDomKids_cons (isDom_pyNode _ _ _ isDomKids_nil) (isDomKids_single (isDom_pyNode _ _ _ isDomKids_nil))))
 
 mutual
-theorem isDom_bodyNodes : ∀ (pre : List Str) (d : DItem), isDomKids (bodyNodes pre d) = true
+theorem isDom_bodyNodes (els : List Refs.Chain) : ∀ (pre : List Str) (d : DItem), isDomKids (bodyNodes els pre d) = true
   | pre, .q d p => by
     unfold bodyNodes
     split
@@ -329,37 +362,38 @@ theorem isDom_bodyNodes : ∀ (pre : List Str) (d : DItem), isDomKids (bodyNodes
     · exact isDomKids_nil
   | pre, .sec .rep n b p ks => by
     unfold bodyNodes
-    exact isDomKids_single (isDom_pyNode _ _ _ (isDomKids_cons (isDom_labelNode _)
-      (isDomKids_single (isDom_pyNode _ _ _ (isDom_bodyNodesL (pre ++ [n]) ks)))))
+    exact isDomKids_single (isDom_pyNode _ _ _ (isDomKids_cons (isDom_labelNode ..)
+      (isDomKids_single (isDom_pyNode _ _ _ (isDom_bodyNodesL els (pre ++ [n]) ks)))))
   | pre, .sec .group n b p ks => by
     unfold bodyNodes
     refine isDomKids_single (isDom_pyNode _ _ _ ?_)
-    rw [isDomKids_append, isDom_bodyNodesL (pre ++ [n]) ks, Bool.and_true]
+    rw [isDomKids_append, isDom_bodyNodesL els (pre ++ [n]) ks, Bool.and_true]
     split
-    · exact isDomKids_single (isDom_labelNode _)
+    · exact isDomKids_single (isDom_labelNode ..)
     · exact isDomKids_nil
   | pre, .sec .loop n b p ks => by
     unfold bodyNodes
     refine isDomKids_single (isDom_pyNode _ _ _ ?_)
-    rw [isDomKids_append, isDom_bodyNodesL (pre ++ [n]) ks, Bool.and_true]
+    rw [isDomKids_append, isDom_bodyNodesL els (pre ++ [n]) ks, Bool.and_true]
     split
-    · exact isDomKids_single (isDom_labelNode _)
+    · exact isDomKids_single (isDom_labelNode ..)
     · exact isDomKids_nil
-theorem isDom_bodyNodesL : ∀ (pre : List Str) (ds : List DItem), isDomKids (bodyNodesL pre ds) = true
+theorem isDom_bodyNodesL (els : List Refs.Chain) : ∀ (pre : List Str) (ds : List DItem),
+    isDomKids (bodyNodesL els pre ds) = true
   | _, [] => by unfold bodyNodesL; exact isDomKids_nil
   | pre, k :: ks => by
     unfold bodyNodesL
-    rw [isDomKids_append, isDom_bodyNodes pre k, isDom_bodyNodesL pre ks]; rfl
+    rw [isDomKids_append, isDom_bodyNodes els pre k, isDom_bodyNodesL els pre ks]; rfl
 end
 
 theorem trace_partsDom {wb doc f lists rows drows o ditems} (_T : Trace wb doc f lists rows drows o ditems) :
     PartsDom none (instNodes (defaultsOfL [f.name] ditems) [f.name] (ntKids o.inst))
       ((Choices.staticInsts [] lists).map Choices.instNode ++
         bindNodesL (elsOf f.name (dWithMeta f.name rows ditems)) [(f.name, .group)] (dWithMeta f.name rows ditems))
-      (bodyNodesL [f.name] ditems) :=
+      (bodyNodesL (elsOf f.name (dWithMeta f.name rows ditems)) [f.name] ditems) :=
   ⟨fun ks h => (by cases h), isDom_instNodes _ _ _,
    (by rw [isDomKids_append, isDomKids_map _ _ isDom_choiceInst, isDom_bindNodesL]; rfl),
-   isDom_bodyNodesL _ _⟩
+   isDom_bodyNodesL _ _ _⟩
 
 /-! ## 4. C15 and C01 for the composed conversion -/
 
@@ -771,33 +805,82 @@ theorem ctlRefs_ctl (t : Str) (a : List (Str × Str)) (ks : List Node) (h : cont
 theorem ctlRefsL_text (b : Bool) (s : Str) : ctlRefsL [.text b s] = [] := by
   simp only [ctlRefsL, ctlRefs, List.append_nil]
 
-theorem ctlRefs_labelNode (r : Cells) : ctlRefs (labelNode r) = [] := by
-  have h : controlTags.contains (l!"label") = false := by decide
-  unfold labelNode pyNode
-  rw [ctlRefs_nonctl _ _ _ h]
-  cases get r "label" with
-  | none => rfl
-  | some s => exact ctlRefsL_text _ _
-
-theorem ctlRefs_hintNode (r : Cells) : ctlRefs (hintNode r) = [] := by
-  have h : controlTags.contains (l!"hint") = false := by decide
-  unfold hintNode pyNode
-  rw [ctlRefs_nonctl _ _ _ h]
-  cases get r "hint" with
-  | none => rfl
-  | some s => exact ctlRefsL_text _ _
-
 theorem ctlRefsL_single (n : Node) : ctlRefsL [n] = ctlRefs n := by
   simp only [ctlRefsL, List.append_nil]
 
-theorem ctlRefsL_labelAndHint (r : Cells) : ctlRefsL (labelAndHint r) = [] := by
+theorem ctlRefsL_outputKids : ∀ (ks : List Node), ks.all outputKid = true → ctlRefsL ks = []
+  | [], _ => rfl
+  | k :: ks, h => by
+    simp only [List.all_cons, Bool.and_eq_true] at h
+    have hk : ctlRefs k = [] := by
+      match k, h.1 with
+      | .text _ _, _ => simp [ctlRefs]
+      | .elem t a [], ht =>
+        have : t = l!"output" := by simpa [outputKid] using ht
+        subst this
+        rw [ctlRefs_nonctl _ _ _ (by decide)]; rfl
+    simp only [ctlRefsL, hk, ctlRefsL_outputKids ks h.2, List.append_nil]
+
+theorem ctlRefs_emptyNode (tag : Str) (h : controlTags.contains tag = false) : ctlRefs (emptyNode tag) = [] := by
+  unfold emptyNode pyNode
+  rw [ctlRefs_nonctl _ _ _ h]; rfl
+
+/-- the mixed channel builds an element with the tag it was given -/
+theorem mixedChannel_tag {refs : List (Str × Str)} {tag s : Str} {n : Node} (h : Chan.mixedChannel refs tag s = .ok n) :
+    ∃ a ks, n = .elem tag a ks := by
+  unfold Chan.mixedChannel at h
+  split at h
+  · split at h
+    · simp only [Chan.Outcome.ok.injEq] at h
+      rename_i n' hp
+      unfold Chan.nodeParsed at hp
+      split at hp
+      · simp only [Option.some.injEq] at hp; exact ⟨_, _, by rw [← h, ← hp]⟩
+      · simp at hp
+    · simp at h
+  · simp only [Chan.Outcome.ok.injEq, Chan.nodeText] at h; exact ⟨_, _, h.symm⟩
+  · simp at h
+  · simp at h
+  · simp at h
+
+theorem ctlRefs_textNode (els : List Refs.Chain) (path : List Str) (tag : Str) (cell : Option Str)
+    (h : controlTags.contains tag = false) : ctlRefs (textNode els path tag cell) = [] := by
+  unfold textNode
+  split
+  · exact ctlRefs_emptyNode tag h
+  · split
+    · rename_i s n hn
+      have ho := (textOutcome_ok hn).2
+      have htag : ∃ a ks, n = .elem tag a ks := by
+        unfold textOutcome at hn
+        split at hn
+        · simp at hn
+        · split at hn
+          · rename_i n' hm
+            split at hn
+            · simp only [Chan.Outcome.ok.injEq] at hn; subst hn; exact mixedChannel_tag hm
+            · simp at hn
+          · rename_i hne; exact absurd hn (by intro h'; exact hne _ h')
+      obtain ⟨a, ks, rfl⟩ := htag
+      rw [ctlRefs_nonctl _ _ _ h]
+      exact ctlRefsL_outputKids ks (by simpa only [outputOnly] using ho)
+    · exact ctlRefs_emptyNode tag h
+
+theorem ctlRefs_labelNode (els : List Refs.Chain) (path : List Str) (r : Cells) : ctlRefs (labelNode els path r) = [] :=
+  ctlRefs_textNode _ _ _ _ (by decide)
+
+theorem ctlRefs_hintNode (els : List Refs.Chain) (path : List Str) (r : Cells) : ctlRefs (hintNode els path r) = [] :=
+  ctlRefs_textNode _ _ _ _ (by decide)
+
+theorem ctlRefsL_labelAndHint (els : List Refs.Chain) (path : List Str) (r : Cells) :
+    ctlRefsL (labelAndHint els path r) = [] := by
   unfold labelAndHint
   rw [ctlRefsL_append]
-  have h1 : ctlRefsL (if (has r "label" || has r "hint") = true then [labelNode r] else []) = [] := by
+  have h1 : ctlRefsL (if (has r "label" || has r "hint") = true then [labelNode els path r] else []) = [] := by
     split
     · rw [ctlRefsL_single, ctlRefs_labelNode]
     · rfl
-  have h2 : ctlRefsL (if has r "hint" = true then [hintNode r] else []) = [] := by
+  have h2 : ctlRefsL (if has r "hint" = true then [hintNode els path r] else []) = [] := by
     split
     · rw [ctlRefsL_single, ctlRefs_hintNode]
     · rfl
@@ -851,8 +934,8 @@ theorem last_attrs (v : Str) (a : List (Str × Str)) (h : cleanAttrs a = true) :
     simp only [List.all_cons, List.all_nil, this]; rfl
 
 mutual
-theorem bodyNodes_refs : ∀ (pre : List Str) (d : DItem), ctlOk d = true →
-    ctlRefsL (bodyNodes pre d) = (bodyPaths pre (Convert.erase d)).map xpathStr
+theorem bodyNodes_refs (els : List Refs.Chain) : ∀ (pre : List Str) (d : DItem), ctlOk d = true →
+    ctlRefsL (bodyNodes els pre d) = (bodyPaths pre (Convert.erase d)).map xpathStr
   | pre, .q d p, h => by
     simp only [ctlOk, Bool.and_eq_true, Bool.or_eq_true, Bool.not_eq_true'] at h
     simp only [bodyNodes, Convert.erase, bodyPaths]
@@ -877,14 +960,14 @@ theorem bodyNodes_refs : ∀ (pre : List Str) (d : DItem), ctlOk d = true →
     simp only [bodyNodes, Convert.erase, bodyPaths, ctlRefsL_single, pyNode, List.map]
     rw [ctlRefs_ctl _ _ _ hg, g1, g2]
     simp only [ctlRefsL, ctlRefs_labelNode, List.nil_append, List.append_nil]
-    rw [ctlRefs_ctl _ _ _ hr, e1, e2, bodyNodesL_refs (pre ++ [n]) ks h.2]
+    rw [ctlRefs_ctl _ _ _ hr, e1, e2, bodyNodesL_refs els (pre ++ [n]) ks h.2]
     rfl
   | pre, .sec .group n b p ks, h => by
     simp only [ctlOk, Bool.and_eq_true] at h
     obtain ⟨e1, e2⟩ := last_attrs (xpathStr (pre ++ [n])) p.attrs h.1
     have hg : controlTags.contains (l!"group") = true := by decide
     simp only [bodyNodes, Convert.erase, bodyPaths, ctlRefsL_single, pyNode, List.map]
-    rw [ctlRefs_ctl _ _ _ hg, e1, e2, ctlRefsL_append, bodyNodesL_refs (pre ++ [n]) ks h.2]
+    rw [ctlRefs_ctl _ _ _ hg, e1, e2, ctlRefsL_append, bodyNodesL_refs els (pre ++ [n]) ks h.2]
     split
     · rw [ctlRefsL_single, ctlRefs_labelNode]; rfl
     · rfl
@@ -893,17 +976,17 @@ theorem bodyNodes_refs : ∀ (pre : List Str) (d : DItem), ctlOk d = true →
     obtain ⟨e1, e2⟩ := last_attrs (xpathStr (pre ++ [n])) p.attrs h.1
     have hg : controlTags.contains (l!"group") = true := by decide
     simp only [bodyNodes, Convert.erase, bodyPaths, ctlRefsL_single, pyNode, List.map]
-    rw [ctlRefs_ctl _ _ _ hg, e1, e2, ctlRefsL_append, bodyNodesL_refs (pre ++ [n]) ks h.2]
+    rw [ctlRefs_ctl _ _ _ hg, e1, e2, ctlRefsL_append, bodyNodesL_refs els (pre ++ [n]) ks h.2]
     split
     · rw [ctlRefsL_single, ctlRefs_labelNode]; rfl
     · rfl
-theorem bodyNodesL_refs : ∀ (pre : List Str) (ds : List DItem), ctlOkL ds = true →
-    ctlRefsL (bodyNodesL pre ds) = (bodyPathsL pre (Convert.eraseL ds)).map xpathStr
+theorem bodyNodesL_refs (els : List Refs.Chain) : ∀ (pre : List Str) (ds : List DItem), ctlOkL ds = true →
+    ctlRefsL (bodyNodesL els pre ds) = (bodyPathsL pre (Convert.eraseL ds)).map xpathStr
   | _, [], _ => by simp [bodyNodesL, Convert.eraseL, bodyPathsL, ctlRefsL]
   | pre, k :: ks, h => by
     simp only [ctlOkL, Bool.and_eq_true] at h
     simp only [bodyNodesL, Convert.eraseL, bodyPathsL, ctlRefsL_append, List.map_append,
-      bodyNodes_refs pre k h.1, bodyNodesL_refs pre ks h.2]
+      bodyNodes_refs els pre k h.1, bodyNodesL_refs els pre ks h.2]
 end
 
 theorem erase_dWithMeta (root : Str) (rows : List Cells) (ds : List DItem) :
@@ -960,7 +1043,7 @@ theorem bindRefs_doc {wb doc f lists rows drows o ditems} (T : Trace wb doc f li
 theorem ctlRefs_doc {wb doc f lists rows drows o ditems} (T : Trace wb doc f lists rows drows o ditems) :
     ctlRefsL (bodyKidsOf doc) = o.body.map xpathStr := by
   obtain ⟨hi, -, -, hbody⟩ := trace_items T
-  rw [T.hdoc, bodyKidsOf_assemble, bodyNodesL_refs _ _ T.hctl, hi, hbody]
+  rw [T.hdoc, bodyKidsOf_assemble, bodyNodesL_refs _ _ _ T.hctl, hi, hbody]
 
 /-- **C02 for the whole conversion (document level).**  In the document the composed model produces, the
     `nodeset` of every `<bind>` of the model and the `ref` / `nodeset` of every body control (questions, groups,
